@@ -93,6 +93,42 @@ def run_c20(tier, seed):
                 rp = engine.write_replay(prop, {'kind': 'c20', 'property': prop, 'machine': 'm14', 'cfg': cfg, 'script': scripts[i],
                                                 'rule': rule, 'expected': str(exp), 'got': str(got)})
                 violations.append((rp, 'm14', cfg, rule, exp, got))
+    # ---- part 1b: circular-buffer queues that are actually full (capacity 2 and 3): pushing onto a full
+    # boost::circular_buffer overwrites the oldest stored event (event loss is the container's documented behaviour and
+    # is not judged here); every copy must still be destroyed exactly once and never while a behaviour is looking at it
+    for cap in (2, 3):
+        hq = engine.Harness('m14', ['bq'], mode='asan', extra=('-DVF_QCAP=%d' % cap,))
+        errs = engine.build_harnesses([hq])
+        if errs:
+            harness_problems.append(('small-capacity build', errs[0][-300:]))
+            continue
+        scripts = checks.scripts_for(hq, seed + 40 + cap, n, dict(effects=0.7, enqueue=0.3, effect_api='pqq'))
+        res = run.run_matrix(hq.bins, scripts, env=SAN_ENV, chunk=None)
+        for i, r in enumerate(res['bq']):
+            ev.evaluations += 1
+            recs = r.recs
+            bad = None
+            led = [x.raw for x in recs if x.k == 'LEDGER']
+            live = [x for x in recs if x.k == 'LIVE']
+            if r.status != 'ok':
+                bad = ('sanitizer-or-crash:' + r.status.split(':')[0], 'clean run', ' '.join(x.raw for x in recs[-3:])[-600:])
+            elif any(x.k == 'EXITRC' for x in recs):
+                bad = ('exit-report', 'clean exit (no leak report)', [x.raw for x in recs if x.k == 'EXITRC'][0][:600])
+            elif led:
+                bad = ('instance-ledger', 'every stored copy destroyed exactly once, none used after destruction', led[0][:300])
+            elif live and any(x.extra and x.extra[0] != '0' for x in live):
+                bad = ('instance-ledger-live', 'no event copy alive at the end of the script', live[-1].raw)
+            if bad is None:
+                ev.distinct.add(('small-circular', cap, i % 20))
+                continue
+            rule, exp, got = bad
+            k = engine.match_known(known, prop, 'back', rule, 'm14|cap=%d|%s' % (cap, got[:200]))
+            if k:
+                known_hits[k['id']] = known_hits.get(k['id'], 0) + 1
+                continue
+            rp = engine.write_replay(prop, {'kind': 'c20', 'property': prop, 'machine': 'm14', 'cfg': 'bq', 'script': scripts[i],
+                                            'extra': ['-DVF_QCAP=%d' % cap], 'rule': rule, 'expected': str(exp), 'got': str(got)})
+            violations.append((rp, 'm14', 'bq/cap=%d' % cap, rule, exp, got))
     # ---- part 2: machines copied / moved / destroyed with events pending
     ncopy = 30 if tier == 'quick' else 300
     for fam_mp in (False, True):
@@ -181,7 +217,7 @@ def replay_c20(path):
             return 0
         print('VIOLATION property=C20 replay=%s' % path)
         return 1
-    h = engine.Harness(d['machine'], [d['cfg']], mode='asan')
+    h = engine.Harness(d['machine'], [d['cfg']], mode='asan', extra=tuple(d.get('extra', ())))
     errs = engine.build_harnesses([h])
     if errs:
         print('\n'.join(errs))
@@ -189,7 +225,10 @@ def replay_c20(path):
     r = run.run_matrix(h.bins, [d['script']], env=SAN_ENV)[d['cfg']][0]
     for x in r.recs[-40:]:
         print('  ', x.raw[:400])
-    v = engine.accept_all(h, {d['cfg']: [r]}, parallel=False)[d['cfg']][0]
+    if d.get('extra'):
+        v = {'ok': True, 'tags': []}       # small-capacity runs lose events by design: sanitizer and instance ledger only
+    else:
+        v = engine.accept_all(h, {d['cfg']: [r]}, parallel=False)[d['cfg']][0]
     bad = r.status != 'ok' or any(x.k in ('EXITRC', 'LEDGER') for x in r.recs) or (not v['ok'] and 'C20' in v['tags'])
     if not bad:
         print('ACCEPTED: clean on the current tree')
